@@ -38,7 +38,8 @@ def archs(tier):
 def bound(tier):
     return dict(architectures=[[k, a] for k, a in archs(tier)], patterns=2, deviations=1 if tier == "quick" else "1 (+2 for <= 8 parameters)",
                 observables="SigmaX, SigmaY, SigmaZ (absolute F/T), NeighbourInteraction c=1..n x {open, periodic}",
-                batches=["full space", "reversed space", "every single row as (1,n)"])
+                batches=["full space", "reversed space", "every single row as (1,n)"],
+                extra=["polarised parameter sets (biases +-10)", "one set of observable objects reused on models of sizes 2,4,3,2,4 vs fresh objects"])
 
 
 def plan(tier, seed):
@@ -54,6 +55,8 @@ def plan(tier, seed):
     # strongly polarised states (visible biases around +-10: basis-state probabilities down to 1e-12 and below)
     for kind, arch in (("mixed", [3, 1, 1]), ("mixed", [2, 2, 2]), ("complex", [3, 2]), ("positive", [3, 2]), ("complex", [4, 2])):
         items.append(dict(kind=kind, arch=arch, scope="polarised"))
+    for kind in ("positive", "complex", "mixed"):
+        items.append(dict(kind=kind, arch=[2, 2], scope="reused-objects"))
     return items
 
 
@@ -148,6 +151,52 @@ def check_case(acc, kind, arch, params, st=None, history=None):
         bad(f"observable:raised:{e.kind}", e.tb)
 
 
+def run_reused_objects(acc, kind):
+    """ONE set of observable objects serves models of different sizes in turn (what a script looping over system
+    sizes does): the value on every basis state must be what a freshly constructed observable gives - evaluating an
+    observable must not change it.  Sizes visit c == n, c < n, c == n again."""
+    L = lib()
+    O = L.observables
+    from ..common import pattern, net_sizes
+
+    def make():
+        d = {"X": O.SigmaX(), "Y": O.SigmaY(), "Z": O.SigmaZ(), "|Z|": O.SigmaZ(absolute=True)}
+        for per in (False, True):
+            for c in (1, 2, 3):
+                d[("NI", per, c)] = O.NeighbourInteraction(periodic_bcs=per, c=c)
+        return d
+    shared = make()
+    visited = []
+    for n in (2, 4, 3, 2, 4):
+        arch = [n, 2] if kind != "mixed" else [n, 1, 1]
+        sizes = net_sizes(kind, arch)
+        params = [pattern(m, n, r) for r, m in enumerate(sizes)]
+        if kind == "mixed":
+            from ..common import aux_bias_slice
+            sl = aux_bias_slice(arch)
+            for t in range(sl.start, sl.stop):
+                params[1][t] = 0.0
+        st = build_state(kind, arch, params)
+        space = call(st.generate_hilbert_space)
+        fresh = make()
+        visited.append(n)
+        for key in shared:
+            if not isinstance(key, str) and not key[1] and key[2] >= n:
+                continue  # open chain: no pair at that distance
+            acc.ev(1, nontrivial=True)
+            acc.count("applies", 2)
+            try:
+                a = call(shared[key].apply, st, space).numpy()
+                b = call(fresh[key].apply, st, space).numpy()
+            except LibRaised as e:
+                acc.viol(f"observable:raised:{e.kind}", dict(kind=kind, layer="reused-objects", sizes_visited=list(visited), observable=str(key)), observed=e.tb)
+                return
+            if not close(a, b, 1e-12):
+                acc.viol("observable:value-depends-on-what-the-object-was-applied-to-before", dict(kind=kind, layer="reused-objects", sizes_visited=list(visited), observable=str(key)), observed=a, expected=b)
+                return
+    acc.outcome("reused:" + kind)
+
+
 def run_stateful(acc, kind, arch):
     from ..common import update_params, UPDATE_STYLES
     from .c05 import stateful_sequence
@@ -171,6 +220,12 @@ def run_item(item):
         acc.transitions = acc.counters.get("applies", 0) * (2 + 2 ** arch[0])
         acc.traces = acc.counters.get("applies", 0)
         acc.evaluations = max(acc.evaluations, acc.traces)
+        return acc
+    if item.get("scope") == "reused-objects":
+        run_reused_objects(acc, kind)
+        acc.states = acc.evaluations
+        acc.transitions = acc.counters.get("applies", 0)
+        acc.traces = acc.counters.get("applies", 0)
         return acc
     if item.get("scope") == "polarised":
         from .c10 import polarised_params
@@ -200,6 +255,9 @@ def run_item(item):
 
 def replay(case):
     acc = Acc()
+    if case.get("layer") == "reused-objects":
+        run_reused_objects(acc, case["kind"])
+        return acc
     if case.get("history"):
         run_stateful(acc, case["kind"], case["arch"])
         return acc
